@@ -7,6 +7,8 @@
     any order - every number of callers, every schedule, every init length. *)
 From Coq Require Import ZArith List Bool String.
 From MT Require Import Lib.Interleave Once.OnceModel Once.OnceProofs.
+From MT Require Machine.MachineModel Machine.MachineProofs.
+From MT Require Import Once.OnceMachine Once.OnceMachineProofs.
 Import ListNotations.
 Local Open Scope Z_scope.
 
@@ -119,3 +121,87 @@ Example C14_example_in_progress :
          runs := 1; fins := 0; rets := 0 |} /\
   step s (1, ERet 0%Z) = None /\ step s (1, EInitBegin) = None /\ step s (2, EInitStep) = None.
 Proof. vm_compute. repeat split; reflexivity. Qed.
+
+(** ---- "1..N workers": the once protocol composed with the scheduler-level machine (coq/Machine) ----
+    Once/OnceMachine.v: every once step is an own-context step of the thread that is current on a worker
+    ([cur w = Run t]); a waiter's myth_yield is the machine's yield sequence [PopOwn; SaveCtx; PutBase; EndCb]. *)
+
+(** (a) a waiter that polls a control in progress gives the worker to the newest queued thread [x] and goes to
+    the BASE of the queue, below everything that was queued: in particular below the initialiser if it is queued
+    on that worker; nothing else changes ... *)
+Theorem C14_waiter_gives_way : forall s w t r x, MachineProofs.Inv (ms s) ->
+  nth_error (MachineModel.cur (ms s)) w = Some (MachineModel.Run t) ->
+  nth_error (MachineModel.hand (ms s)) w = Some None ->
+  nth_error (MachineModel.dq (ms s)) w = Some (r ++ [x]) ->
+  thr_at (os s) t {| main := WaitRead |} -> word (os s) <> 2%Z ->
+  prun s (poll w) =
+    Some {| os := os s;
+            ms := {| MachineModel.cur := MachineModel.upd (MachineModel.cur (ms s)) w (MachineModel.Run x);
+                     MachineModel.hand := MachineModel.hand (ms s);
+                     MachineModel.dq := MachineModel.upd (MachineModel.dq (ms s)) w (t :: r);
+                     MachineModel.stat := MachineModel.stat (ms s) |} |}.
+Proof. exact waiter_gives_way. Qed.
+Print Assumptions C14_waiter_gives_way.
+
+(** ... and the owner takes from the top: as long as anything is queued above the waiter [t], the next thread the
+    worker takes is that one, not [t] - so everything queued before the poll (the initialiser included) runs, or
+    is stolen, before the waiter polls again on this worker *)
+Theorem C14_owner_pops_above_base : forall m w c t r y,
+  nth_error (MachineModel.cur m) w = Some c -> (forall u, c <> MachineModel.Cb u) ->
+  nth_error (MachineModel.hand m) w = Some None ->
+  nth_error (MachineModel.dq m) w = Some (t :: r ++ [y]) ->
+  MachineModel.mmove m w MachineModel.PopOwn =
+    Some (MachineModel.set_hand (MachineModel.set_dq m w (t :: r)) w (Some y)).
+Proof. exact owner_pops_above_base. Qed.
+Print Assumptions C14_owner_pops_above_base.
+
+(** (b) ONE worker, k waiters and an initialiser whose routine yields j times (thread 0 current, threads 1..k
+    queued, everybody about to call once; [drive] = the deterministic execution of that program): within
+    [bound k j = (k+1)(j+5) + j + 8] driver steps everything has completed - control completed, routine run
+    exactly once, all k+1 calls returned, every thread finished, worker idle with an empty queue.  For every k
+    and every j: the round-robin of the base-insertion discipline reaches the initialiser once per round. *)
+Theorem C14_one_worker_terminates : forall k j,
+  exists n d, n <= bound k j /\ drive n (dstart k j) = Some d /\
+    MachineModel.cur (ms (ps d)) = [MachineModel.Sched] /\ MachineModel.hand (ms (ps d)) = [None] /\
+    MachineModel.dq (ms (ps d)) = [[]] /\
+    word (os (ps d)) = 2%Z /\ runs (os (ps d)) = 1 /\ fins (os (ps d)) = 1 /\ rets (os (ps d)) = S k.
+Proof. exact one_worker_terminates. Qed.
+Print Assumptions C14_one_worker_terminates.
+
+(** the same as a schedule of the product: at most 5 actions per driver step, every action enabled *)
+Theorem C14_one_worker_schedule : forall k j,
+  exists sched p, List.length sched <= 5 * bound k j /\ prun (ps (dstart k j)) sched = Some p /\
+    MachineModel.cur (ms p) = [MachineModel.Sched] /\ MachineModel.dq (ms p) = [[]] /\
+    word (os p) = 2%Z /\ runs (os p) = 1 /\ fins (os p) = 1 /\ rets (os p) = S k.
+Proof. exact one_worker_schedule. Qed.
+Print Assumptions C14_one_worker_schedule.
+
+(** non-vacuity: two waiters and a routine that yields once complete in exactly 22 driver steps (bound 27);
+    after 12 steps the initialiser (thread 0) is current again, inside its routine, the waiters queued *)
+Example C14_one_worker_example :
+  bound 2 1 = 27 /\
+  (exists d, drive 22 (dstart 2 1) = Some d /\ MachineModel.cur (ms (ps d)) = [MachineModel.Sched] /\
+             word (os (ps d)) = 2%Z /\ rets (os (ps d)) = 3) /\
+  (exists d, drive 12 (dstart 2 1) = Some d /\ MachineModel.cur (ms (ps d)) = [MachineModel.Run 0] /\
+             MachineModel.dq (ms (ps d)) = [[1; 2]] /\ word (os (ps d)) = 1%Z /\ jrem d = 0).
+Proof. vm_compute. repeat split; eexists; repeat split; reflexivity. Qed.
+
+(** a state that satisfies the hypotheses of [C14_waiter_gives_way]: one worker, waiter 2 current, the
+    initialiser 0 (inside its routine) and waiter 1 queued; after the poll 1 runs and 2 is at the base *)
+Example C14_gives_way_example :
+  let s := {| os := {| word := 1%Z; thr := [ {| main := InInit |}; {| main := WaitRead |}; {| main := WaitRead |} ];
+                       runs := 1; fins := 0; rets := 0 |};
+              ms := {| MachineModel.cur := [MachineModel.Run 2]; MachineModel.hand := [None];
+                       MachineModel.dq := [[0; 1]];
+                       MachineModel.stat := [MachineModel.Live; MachineModel.Live; MachineModel.Live] |} |} in
+  MachineProofs.Inv (ms s) /\
+  prun s (poll 0) =
+    Some {| os := os s;
+            ms := {| MachineModel.cur := [MachineModel.Run 1]; MachineModel.hand := [None];
+                     MachineModel.dq := [[2; 0]];
+                     MachineModel.stat := [MachineModel.Live; MachineModel.Live; MachineModel.Live] |} |}.
+Proof.
+  split; [|vm_compute; reflexivity].
+  intros t. do 3 (destruct t as [|t]; [vm_compute; split; [repeat constructor | discriminate]|]).
+  vm_compute. split; [repeat constructor | reflexivity].
+Qed.
